@@ -22,6 +22,7 @@ CONSTANTS
   MaxE = 2
   StrictOrder = TRUE
   LowerBound = TRUE
+  CacheCopies = TRUE
 INVARIANT TypeOK
 INVARIANT AcceptIffValid
 INVARIANT ReasonsIffInvalid
